@@ -335,7 +335,23 @@ type plConf struct {
 	YamlShape bool          // nested config maps are map[interface{}]interface{} (yaml.v2) instead of viper's
 	ViaConf   bool          // schedules, rps-per-instance and discard_overflow come out of pandora's config decoding
 	Case      int           // M2: index of the TLC-generated case, -1 otherwise
+	Twin      int           // > 0: the engine has a SECOND pool that starts this many instances (ids are numbered per pool)
 }
+
+// the gun of the second pool: records the InstanceID it is bound with, counts its shots
+type plTwinGun struct {
+	mu    *sync.Mutex
+	ids   *[]int
+	shots *int64
+}
+
+func (g *plTwinGun) Bind(_ core.Aggregator, deps core.GunDeps) error {
+	g.mu.Lock()
+	*g.ids = append(*g.ids, deps.InstanceID)
+	g.mu.Unlock()
+	return nil
+}
+func (g *plTwinGun) Shoot(core.Ammo) { atomic.AddInt64(g.shots, 1) }
 
 // ---------------------------------------------------------------- the per-run log
 
@@ -669,7 +685,27 @@ func plRunOne(c plConf, seed int64) plResult {
 		StartupSchedule: &plSchedule{r: r, inner: startupInner, startup: true, expl: c.Explicit},
 		DiscardOverflow: discard,
 	}
-	eng := engine.New(zap.NewNop(), m, engine.Config{Pools: []engine.InstancePoolConfig{pool}})
+	pools := []engine.InstancePoolConfig{pool}
+	var twinMu sync.Mutex
+	twinIDs := []int{}
+	var twinShots int64
+	if c.Twin > 0 {
+		// a second pool in the same engine, before or after the recorded one: c.Twin instances at once, one shot
+		// each; its mocks record only the ids its guns are bound with and the number of shots
+		twin := engine.InstancePoolConfig{
+			ID: "q", Provider: &plHotProvider{gate: make(chan struct{}), ammo: &plAmmo{id: 1}}, Aggregator: plHotAggregator{},
+			NewGun:          func() (core.Gun, error) { return &plTwinGun{mu: &twinMu, ids: &twinIDs, shots: &twinShots}, nil },
+			RPSPerInstance:  true,
+			NewRPSSchedule:  func() (core.Schedule, error) { return schedule.NewOnce(1), nil },
+			StartupSchedule: schedule.NewOnce(int64(c.Twin)),
+		}
+		if seed%2 == 0 {
+			pools = []engine.InstancePoolConfig{twin, pool}
+		} else {
+			pools = append(pools, twin)
+		}
+	}
+	eng := engine.New(zap.NewNop(), m, engine.Config{Pools: pools})
 	done := make(chan error, 1)
 	go func() {
 		err := eng.Run(context.Background())
@@ -722,6 +758,10 @@ func plRunOne(c plConf, seed int64) plResult {
 		"request": vt.Small(int64(m.Request.Get())), "response": vt.Small(int64(m.Response.Get())),
 		"inst_start": vt.Small(int64(m.InstanceStart.Get())), "inst_finish": vt.Small(int64(m.InstanceFinish.Get())),
 		"created": created, "shots": shots, "acquired": acquired}
+	// the other pool of the engine (none: no ids, no shots): the engine's counters are engine-wide
+	twinMu.Lock()
+	end["twin_ids"], end["twin_shots"] = append([]int{}, twinIDs...), int(atomic.LoadInt64(&twinShots))
+	twinMu.Unlock()
 	// what the real phout wrote: one line per Report, the discarded ones tagged and coded as such
 	end["phout"] = aggr.real != nil
 	phLines, phDisc := 0, 0
@@ -962,6 +1002,9 @@ func plGroupConfs(path string, seed int64) []plConf {
 			Explicit: rng.Intn(8) != 0, ShotMax: time.Duration(i%2) * 300 * time.Microsecond}
 		c.ViaConf = rng.Intn(2) == 0
 		c.YamlShape = rng.Intn(2) == 0
+		if rng.Intn(3) == 0 {
+			c.Twin = 1 + rng.Intn(3)
+		}
 		out = append(out, c)
 	}
 	return out
@@ -978,6 +1021,9 @@ func plEnumStartupConfs(seed int64) []plConf {
 			Explicit: i%4 != 3, ShotMax: time.Duration(i%2) * 300 * time.Microsecond}
 		c.ViaConf = (int64(i)+seed)%3 == 0 && !st.hasOnceZero()
 		c.YamlShape = (int64(i)+seed)%2 == 0
+		if i%4 == 1 {
+			c.Twin = 1 + i%3
+		}
 		out = append(out, c)
 	}
 	pause := plSched{Ctor: "const", From: 0, Dur: plMs(3)}
@@ -1119,6 +1165,9 @@ func plRandConf(rng *rand.Rand, focus string) plConf {
 		if c.A < 0 {
 			c.A = 0
 		}
+	}
+	if focus == "c12" && rng.Intn(4) == 0 {
+		c.Twin = 1 + rng.Intn(4)
 	}
 	return c
 }
@@ -1402,8 +1451,8 @@ func poolMain(args []string) {
 			// n_impl, t, tmin: what the REAL schedules report before their start (Left()); sdesc, rdesc: the configuration
 			"n_impl": c.Startup.tokens(), "t": c.RPS.tokens(), "tmin": c.RPS.minTokens(), "a": c.A, "per": c.Per, "discard": c.Discard,
 			"sdesc": c.Startup.desc(), "rdesc": c.RPS.desc(), "explicit": c.Explicit, "case": c.Case, "tree": c.schedTree(),
-			"desc": fmt.Sprintf("startup=%s rps=%s per=%v discard=%v a=%d past=%s shot<=%s provdelay=%s explicit=%v viaconf=%v yamlshape=%v",
-				c.Startup, c.RPS, c.Per, c.Discard, c.A, c.Past, c.ShotMax, c.ProvDelay, c.Explicit, c.ViaConf, c.ViaConf && c.YamlShape)})
+			"desc": fmt.Sprintf("startup=%s rps=%s per=%v discard=%v a=%d past=%s shot<=%s provdelay=%s explicit=%v viaconf=%v yamlshape=%v otherpool=%d",
+				c.Startup, c.RPS, c.Per, c.Discard, c.A, c.Past, c.ShotMax, c.ProvDelay, c.Explicit, c.ViaConf, c.ViaConf && c.YamlShape, c.Twin)})
 		for _, e := range res.evs {
 			e.Run = i
 			w.Emit(e)
